@@ -149,6 +149,54 @@ def retest(only=None):
     return 0 if not missed else 1
 
 
+def benign(prop, n, wt, checks=None):
+    """A property-PRESERVING change produced by a sub-agent (behaviour the statement leaves open is
+    changed): suite + demo must pass with and without it, and the registered quick check of the
+    property must stay silent (exit 0, no VIOLATION line) on the changed tree."""
+    out = os.path.join(wt, '_out')
+    patch, demo, notes = (os.path.join(out, f'{x}{n}.{e}') for x, e in (('patch', 'diff'), ('demo', 'py'), ('notes', 'md')))
+    res = {'property': prop, 'n': n}
+    sh('git checkout -- .', cwd=wt)
+    rc, o = sh(f'{PY} {demo} {wt}', env={'PYTHONPATH': '/tmp/shims'})
+    res['demo_clean_rc'] = rc
+    rc, o = sh(f'git apply {patch}', cwd=wt)
+    res['apply_rc'] = rc
+    results = {}
+    try:
+        rc, o = sh(f'{PY} -m pytest -q -p no:cacheprovider --timeout=900 --continue-on-collection-errors 2>&1 | tail -3', cwd=wt)
+        res['suite_tail'] = o.strip().split('\n')[-1]
+        rc, o = sh(f'{PY} {demo} {wt}', env={'PYTHONPATH': '/tmp/shims'})
+        res['demo_changed_rc'] = rc
+        res['difference'] = next((l for l in o.split('\n') if l.startswith('DIFFERENCE')), '')[:400]
+        for c in (checks or [prop]):
+            t0 = time.time()
+            rc, o = sh(f'./check {c} --tier quick', cwd=V, env={
+                'VERIF_SEED': os.environ.get('VERIF_SEED', '0'), 'VERIF_REPO': wt,
+                'VERIF_EVIDENCE_DIR': '/tmp/seed_evidence', 'VERIF_REPLAY_DIR': '/tmp/seed_replays'})
+            lines = [l for l in o.split('\n') if l.startswith('VIOLATION') or 'failing clauses' in l or l.startswith('DRIFT')][:6]
+            results[c] = {'rc': rc, 'wall_s': round(time.time() - t0, 1), 'first_lines': [x[:500] for x in lines], 'summary': o.strip().split('\n')[-1][:300]}
+    finally:
+        sh('git checkout -- .', cwd=wt)
+    res['accepted'] = (res['demo_clean_rc'] == 0 and res['apply_rc'] == 0 and res.get('demo_changed_rc') == 0
+                       and res.get('suite_tail', '').startswith('2129 passed') and '8 errors' in res.get('suite_tail', ''))
+    d = os.path.join(V, 'benign', f'{prop}-{n}')
+    os.makedirs(d, exist_ok=True)
+    shutil.copy(patch, os.path.join(d, 'patch.diff'))
+    shutil.copy(demo, os.path.join(d, 'demo.py'))
+    if os.path.exists(notes):
+        shutil.copy(notes, os.path.join(d, 'notes.md'))
+    meta = {'preserves_property': prop, 'confirmation': res, 'checks': results,
+            'silent': all(r['rc'] == 0 for r in results.values()),
+            'what_it_changes': open(notes).read()[:1500] if os.path.exists(notes) else ''}
+    json.dump(meta, open(os.path.join(d, 'meta.json'), 'w'), indent=1)
+    print(prop, n, 'accepted=', res['accepted'], 'suite:', res.get('suite_tail'), 'demo:', res.get('demo_clean_rc'), res.get('demo_changed_rc'))
+    for c, r in results.items():
+        print('   ', c, 'rc=', r['rc'], r['wall_s'], 's', r['summary'][:200])
+        for l in r['first_lines'][:3]:
+            print('      ', l[:300])
+    return meta['silent']
+
+
 if __name__ == '__main__':
     if sys.argv[1] == 'retest':
         sys.exit(retest(set(sys.argv[2:]) or None))
@@ -156,6 +204,9 @@ if __name__ == '__main__':
         summary()
         sys.exit(0)
     cmd, prop, n = sys.argv[1], sys.argv[2], int(sys.argv[3])
+    if cmd == 'benign':
+        wt = sys.argv[5] if len(sys.argv) > 5 and sys.argv[4] == '--wt' else f'/tmp/wtd_{prop}'
+        sys.exit(0 if benign(prop, n, wt) else 1)
     if cmd == 'confirm':
         wt = sys.argv[5] if len(sys.argv) > 5 and sys.argv[4] == '--wt' else f'/tmp/wt_{prop}'
         sys.exit(0 if confirm(prop, n, wt) else 1)
